@@ -25,6 +25,9 @@ def slice_file(repo, rel, specs):
                 if a not in item:
                     raise sl.SliceError(f"rewrite anchor {a!r} not found in {sp}")
                 item = item.replace(a, b)
+        if sp.get("wrap"):
+            # methods sliced out of an impl block are re-wrapped in an impl header given by the harness
+            item = sp["wrap"] + " {\n" + item + "\n}"
         parts.append(item)
         names.append((sp["kind"] + " " + (sp.get("name") or "")).strip() + (f" in impl /{sp['impl']}/" if sp.get("impl") else ""))
     return HEADER.format(src=os.path.join(repo, rel), items="; ".join(names)) + "\n\n".join(parts) + "\n"
@@ -64,6 +67,9 @@ def generate(repo, ws, write_if_changed):
              dict(kind="trait", name="ExtendedHeaderExt"),
              dict(kind="impl", impl=r"impl ExtendedHeaderExt for ExtendedHeader"),
          ]))
+    emit("p2p_c27.rs", slice_file(repo, "node/src/p2p.rs", [
+        dict(kind="fn", name="get_verified_headers_range", impl=r"^impl P2p$", wrap="impl P2p"),
+    ]))
     emit("merkle_proof_c13.rs", slice_file(repo, "types/src/merkle_proof.rs", [
         dict(kind="struct", name="MerkleProof", rewrite=[('#[derive(Debug, Clone, PartialEq, Serialize, Deserialize)]\n#[serde(try_from = "RawMerkleProof", into = "RawMerkleProof")]', '#[derive(Debug, Clone, PartialEq)] // serde derives removed by the slicer')]),
         dict(kind="impl", impl=r"^impl MerkleProof$"),
